@@ -25,16 +25,17 @@ def make_pool(hszinc):
         {'id': '', 'v': 10},                    # 10 empty-string id
         {'id': 5.0, 'v': 11},                   # 11 float id: equal to the int id 5 of row 2, but another id ('5.0' vs '5')
         {'v': 2},                               # 12 equal to row 1, another object: remove / index / count / in go by equality
+        {'ref': Ref('x1'), 'v': 13},            # 13 no id, points at the plain-string id 'x1' (a filter path can follow it)
     ]
 
 
 def row_kind(i):
     return {0: 'str-id', 1: 'no-id', 2: 'int-id', 3: 'ref-id', 4: 'dup-id', 5: 'non-dict', 6: 'str-id',
-            7: 'refdis-id', 8: 'v3-cell', 9: 'zero-id', 10: 'empty-id', 11: 'float-id', 12: 'equal-twin'}[i]
+            7: 'refdis-id', 8: 'v3-cell', 9: 'zero-id', 10: 'empty-id', 11: 'float-id', 12: 'equal-twin', 13: 'ref-to-str-id'}[i]
 
 
 def new_grid(hszinc, version=None):
-    g = hszinc.Grid(version=version, metadata={'m': 'meta'}, columns=[('id', []), ('v', [('unit', 'u')])])
+    g = hszinc.Grid(version=version, metadata={'m': 'meta'}, columns=[('id', []), ('v', [('unit', 'u')]), ('ref', [])])
     return g
 
 
@@ -119,7 +120,7 @@ def model_apply(l, op, pool):
         if not (-len(l) <= op[1] < len(l)):
             return {'IndexError'}, None, l
         l[op[1]]['id'] = op[2]
-    elif t in ('lookup', 'getlookup', 'reindex'):
+    elif t in ('lookup', 'getlookup', 'reindex', 'evalfilter'):
         pass
     else:
         raise AssertionError(op)
@@ -186,6 +187,9 @@ def real_apply(st, op):
                 pass
         elif t == 'getlookup':
             g.get(op[1])
+        elif t == 'evalfilter':
+            # evaluating a filter on the grid (result dropped): reading, as far as the grid is concerned
+            g.filter(op[1])
         else:
             raise AssertionError(op)
     exc, _ = _exc(run)
